@@ -2,6 +2,7 @@ package props
 
 import (
 	"fmt"
+	"go/build/constraint"
 	"sort"
 	"strings"
 
@@ -272,7 +273,7 @@ type c15case struct {
 }
 
 func c15run(r *report.Run) {
-	r.Rule("every digraph on n labelled packages (incl. self-imports up to n=4) x every root, executed by the real Load; plus location/file-split/poison-file configurations on small graphs; non-trivial = distinct (root, reachable subgraph, configuration) with at least one import edge")
+	r.Rule("every digraph on n labelled packages (incl. self-imports up to n=4) x every root, executed by the real Load; plus location/file-split/poison-file configurations on small graphs; plus file selection: every set of <=2 files (and of 3 files over a reduced (thorough: the full) set of build lines) over 11 file names (a_test.go, b_test.go, test.go, latest.go, x_test.go.go, ...) x 13 //go:build lines (goat, !goat, ignore, linux, amd64 and combinations), as root and as dependency, the set of files that ran compared with the rule of the property; non-trivial = distinct (root, reachable subgraph, configuration) with at least one import edge")
 	r.Assume("packages a<b<c<d<e only; graphs larger than the bound are not explored", "order of independent packages is not constrained (the property does not fix it)")
 	maxN, maxNself := 4, 4
 	cfgN := 2
@@ -446,9 +447,140 @@ func c15run(r *report.Run) {
 			r.Fail(&report.Case{Kind: "clash", Key: fmt.Sprintf("conflicting package clauses, %d files", split), Files: files, Want: "error", Got: res.String()})
 		}
 	}
+	// (4) file selection: which files of a directory make up the package
+	c15selection(r)
 	if r.Expired() {
 		r.NotExhaustive("internal deadline reached")
 	}
+}
+
+// file selection ---------------------------------------------------------------------------
+//
+// One package s made of base.go plus every set of <=2 files (quick; thorough: <=3) over 11 file names x 13
+// //go:build lines, each file printing its own marker from a variable initialiser and from init.  Loaded as the root
+// and as a dependency of a root package.  Reference: a file belongs to the package iff its name does not end in
+// _test.go and its //go:build line (if any) is true when goat is the only tag set.
+
+var c15selNames = []string{"a.go", "a_test.go", "b_test.go", "c_test.go", "test.go", "latest.go", "contest.go", "z_test.go", "atest.go", "x_test.go.go", "test_a.go"}
+var c15selBuild = []string{"", "goat", "!goat", "ignore", "linux", "!linux", "amd64", "goat && linux", "goat || linux", "!goat || amd64", "goat && !linux", "!(goat && linux)", "goat && !ignore && !windows"}
+
+type c15selFile struct {
+	Name  int `json:"name"`
+	Build int `json:"build"`
+}
+
+type c15selCase struct {
+	Files []c15selFile `json:"files"`
+	AsDep bool         `json:"as_dep"`
+}
+
+func c15selIncluded(f c15selFile) bool {
+	if strings.HasSuffix(c15selNames[f.Name], "_test.go") {
+		return false
+	}
+	if c15selBuild[f.Build] == "" {
+		return true
+	}
+	x, err := constraint.Parse("//go:build " + c15selBuild[f.Build])
+	if err != nil {
+		panic(err)
+	}
+	return x.Eval(func(tag string) bool { return tag == "goat" })
+}
+
+func c15selRun(c c15selCase) (problem, got string, files map[string]string) {
+	files = map[string]string{"s/base.go": "package s\n\nimport \"fmt\"\n\nfunc mark(s string) int {\n\tfmt.Println(s)\n\treturn 1\n}\n\nfunc Ready() int {\n\treturn 1\n}\n"}
+	var want []string
+	for k, f := range c.Files {
+		name := c15selNames[f.Name]
+		head := ""
+		if c15selBuild[f.Build] != "" {
+			head = "//go:build " + c15selBuild[f.Build] + "\n\n"
+		}
+		files["s/"+name] = head + fmt.Sprintf("package s\n\nvar v%d = mark(\"var:%s\")\n\nfunc init() {\n\tmark(\"init:%s\")\n}\n", k, name, name)
+		if c15selIncluded(f) {
+			want = append(want, "init:"+name, "var:"+name)
+		}
+	}
+	sort.Strings(want)
+	arg := "s"
+	if c.AsDep {
+		files["top/top.go"] = "package top\n\nimport \"s\"\n\nvar r = s.Ready()\n"
+		arg = "top"
+	}
+	m := goat.New()
+	defer m.Close()
+	res := m.Load(goat.FS(files), arg)
+	if res.Failed() {
+		return "Load failed", res.String(), files
+	}
+	lines := strings.Fields(res.Out)
+	sort.Strings(lines)
+	got = strings.Join(lines, " ")
+	if got != strings.Join(want, " ") {
+		return "the set of files that ran differs: want [" + strings.Join(want, " ") + "]", got, files
+	}
+	return "", got, files
+}
+
+func c15selection(r *report.Run) {
+	var all []c15selFile
+	for n := range c15selNames {
+		for b := range c15selBuild {
+			all = append(all, c15selFile{n, b})
+		}
+	}
+	var cases []c15selCase
+	for i, f := range all {
+		cases = append(cases, c15selCase{Files: []c15selFile{f}})
+		for _, g := range all[i+1:] {
+			if g.Name != f.Name {
+				cases = append(cases, c15selCase{Files: []c15selFile{f, g}})
+			}
+		}
+	}
+	// three files: every set of three names; quick: over 4 build lines, thorough: over all
+	b3 := []int{0, 2, 4, 10}
+	if r.Tier == "thorough" {
+		b3 = nil
+		for b := range c15selBuild {
+			b3 = append(b3, b)
+		}
+	}
+	nn := len(c15selNames)
+	for x := 0; x < nn; x++ {
+		for y := x + 1; y < nn; y++ {
+			for z := y + 1; z < nn; z++ {
+				for _, bx := range b3 {
+					for _, by := range b3 {
+						for _, bz := range b3 {
+							cases = append(cases, c15selCase{Files: []c15selFile{{x, bx}, {y, by}, {z, bz}}})
+						}
+					}
+				}
+			}
+		}
+	}
+	r.Set("file_selection_cases", 2*len(cases))
+	par.DoChunk(len(cases), 64, func(k int) {
+		if r.Expired() {
+			return
+		}
+		for _, dep := range []bool{false, true} {
+			c := cases[k]
+			c.AsDep = dep
+			problem, got, files := c15selRun(c)
+			r.Eval(1)
+			r.Nontrivial(fmt.Sprint("sel", c))
+			if problem != "" {
+				var d []string
+				for _, f := range c.Files {
+					d = append(d, fmt.Sprintf("%s [%s]", c15selNames[f.Name], c15selBuild[f.Build]))
+				}
+				r.Fail(&report.Case{Kind: "selection", Key: fmt.Sprintf("files %s as dependency=%v", strings.Join(d, ", "), dep), Input: c, Files: files, Want: problem, Got: got})
+			}
+		}
+	})
 }
 
 func popcount(x int) int {
@@ -472,6 +604,14 @@ func c15rerun(c *report.Case) (bool, string) {
 		defer m.Close()
 		res := m.Load(goat.FS(c.Files), "a")
 		return res.HostPanic != nil || res.Err == nil, res.String()
+	}
+	if c.Kind == "selection" {
+		var in c15selCase
+		if !remarshal(c.Input, &in) {
+			return false, "bad replay input"
+		}
+		problem, got, _ := c15selRun(in)
+		return problem != "", problem + "\n" + got
 	}
 	var in c15case
 	if !remarshal(c.Input, &in) {
